@@ -7,14 +7,14 @@ DECIDING = ["M-SOLVER", "M-PART", "M-COVER", "M-EQ"]
 LEVEL = "exploration"
 RULE = ("every case = one continuum (small to medium: up to 2x40, 3x12, 4x6, 5x4 units; plus a block of 2x~180 and 3x~40 dense "
         "continua with 10 000 - 50 000 candidate unitary alignments, plus a sweep of 3-annotator continua through the point where a "
-        "triple and a pair + singleton cost the same, in steps of 1/256, plus a corpus of continua whose programme has an integrality gap so that every back-end must branch) and one pooled dissimilarity, "
+        "triple and a pair + singleton cost the same, in steps of 1/256, plus a block with delta_empty 1e-4 .. 1e-6, plus a corpus of continua whose programme has an integrality gap so that every back-end must branch) and one pooled dissimilarity, "
         "aligned (best and soft) under three solver configurations: cylp importable (CBC), `import cylp` raising "
         "ImportError (GLPK), CBC raising cvxpy.SolverError (fault injection, GLPK); a spy on cvxpy.Problem.solve "
         "proves which solver ran; non-trivial = >= 2 units and >= 2 non-empty annotators; distinct by SHA-1")
 ASSUMPTIONS = [
     "the 'failing' configuration is modelled by cvxpy.SolverError raised from Problem.solve when the CBC solver is "
     "requested (the error class the library itself anticipates)",
-    "equality of optima up to |a-b| <= 2e-5*max(1,|a|,|b|)",
+    "equality of optima up to |a-b| <= 2e-5*max(1,|a|,|b|), in units of delta_empty when delta_empty < 1",
 ]
 CONFIGS = ["cbc", "glpk", "cbcfail"]
 EXPECT = {"cbc": ["CBC"], "glpk": ["GLPK_MI"], "cbcfail": ["CBC", "GLPK_MI"]}
@@ -57,7 +57,7 @@ def check_case(ctx, case):
                 if cfg in values:
                     ctx.count("M-EQ")
                     a, b = values["cbc"], values[cfg]
-                    if not oracles.close(a[0], b[0]) or not oracles.close(a[1], b[1]):
+                    if not oracles.close_at_scale(a[0], b[0], dissim.delta_empty) or not oracles.close_at_scale(a[1], b[1], dissim.delta_empty):
                         ctx.fail(f"{kind}:optimum-differs:{cfg}", {"cbc": a, cfg: b, "what": "(reported, recomputed)"},
                                  monitor="M-EQ")
 
@@ -99,6 +99,17 @@ def run(ctx):
         ctx.begin_case(hc)
         ctx.observe("family", "integrality-gap")
         check_case(ctx, hc)
+    # very small delta_empty: costs of the order of 1e-5 .. 1e-6, below the absolute tolerances MIP solvers work with
+    small_d = [{"kind": "positional", "delta": d_} for d_ in (1e-5, 3e-6, 3e-5)] + \
+              [{"kind": "combined", "alpha": 1.0, "beta": 1.0, "delta": d_, "pos": None, "cat": None} for d_ in (1e-5, 1e-6, 1e-4)]
+    for i in range(ctx.scale(10, 200)):
+        n = rng.choice([3, 3, 4])
+        cspec = cases.gen_continuum(rng, n_annot=n, sizes=[rng.randint(2, 5) for _ in range(n)], labels=cases.LABELS_SMALL,
+                                    family=rng.choice(["generic", "dense", "longoverlap", "grid"]))
+        case = {"continuum": cspec, "dissim": small_d[i % len(small_d)]}
+        ctx.begin_case(case)
+        ctx.observe("family", "small-delta_empty")
+        check_case(ctx, case)
     for _ in range(ctx.scale(150, 3000)):
         if ctx.out_of_time():
             break
